@@ -53,6 +53,7 @@ AccInit == [bad |-> {},          \* <<phase, op>> : the API answered badly (5xx 
             badRecorded |-> TRUE,\* every failed check was recorded with its case, request and reproduction command
             times |-> <<>>,      \* arrival times (ms) of the requests, only kept when a rate limit is configured
             rateBad |-> FALSE,
+            statlost |-> 0,      \* distinct delivered failures that are missing from the CLI statistic at the end of the run
             deaths |-> 0,        \* threads that died with an uncaught exception (each is a problem that must be reported)
             exit |-> -1, nreq |-> 0]
 
@@ -104,7 +105,7 @@ Step ==
        [] x.e = "FAULT" -> acc' = [acc EXCEPT !.faults = @ \cup {<<x.ph, x.op>>}] /\ UNCHANGED mon
        [] x.e = "CRASH" -> acc' = [acc EXCEPT !.crashed = TRUE] /\ UNCHANGED mon
        [] x.e = "TDEATH" -> acc' = [acc EXCEPT !.faults = @ \cup {<<x.ph, 0>>}, !.deaths = @ + 1] /\ UNCHANGED mon
-       [] x.e = "X" -> acc' = [acc EXCEPT !.exit = x.code] /\ UNCHANGED mon
+       [] x.e = "X" -> acc' = [acc EXCEPT !.exit = x.code, !.statlost = x.statlost] /\ UNCHANGED mon
        [] OTHER -> UNCHANGED <<mon, acc>>       \* informational lines (STEP, WEXIT, COUNT)
 
 Next == Step
@@ -154,7 +155,7 @@ UnserializableReported == (AtEnd /\ ~Cut /\ ~Cli) =>
     \A i \in 1..Len(Hdr.weird) : \A ph \in {3, 4} :
         (Enabled(ph) /\ \E x \in acc.pf : x[1] = ph /\ x[2] # "skip") =>
             (\E r \in acc.rep : r[1] = ph /\ r[2] = Hdr.weird[i] /\ IsBad(r[3])) /\ acc.exit # 0
-FailuresRecordedWithRequest == acc.badRecorded
+FailuresRecordedWithRequest == acc.badRecorded /\ acc.statlost = 0
 ZeroMeansClean == (AtEnd /\ ~Cut /\ acc.exit = 0) =>
     /\ Problems = {} /\ acc.nfe = {}
     /\ (Cli \/ \A r \in acc.rep : ~IsBad(r[3]))
